@@ -39,6 +39,13 @@ def primItemTree (M : NsMap) (var : XmlVar) (y : Val) : Tree :=
     .node var.qname (if ys.isEmpty then nilAttr var.nillable else []) M (optText (joinTok ys)) [] none
   | _ => .node var.qname (nilAttr var.nillable) M none [] none
 
+/-- the child element of item `y` says `xsi:nil="true"` -/
+def primItemNil (var : XmlVar) (y : Val) : Bool :=
+  match y with
+  | .prim _ => false
+  | .list ys => ys.isEmpty && var.nillable
+  | _ => var.nillable
+
 /-- an item that `convert_element` writes as character data: `None`, a primitive, a token list -/
 inductive PrimItem (e : BEnv) (var : XmlVar) (t : PT) : Val → Prop
   | none : var.nillable = true → PrimItem e var t .none
@@ -110,7 +117,7 @@ theorem joinTok_ne_nil {e : BEnv} {t : PT} {a : Val} {l : List Val} (h : Toks e 
 
 theorem buildNode_primN (e : BEnv) (Γ : Ctx) {m : XmlMeta} {var : XmlVar} (hf : ElemFactsN m var)
     (hcl : var.clazz = none) (a : List (QN × Str)) (M : NsMap) (ha : ∀ kv ∈ a, kv.1 ≠ xsiType) :
-    buildNode e Γ m var.qname var a M = .ok (some (.primitive m var M)) := by
+    buildNode e Γ m var.qname var a M = .ok (some (.primitive m var M (xsiNilOf a = some true))) := by
   simp [buildNode, hf.union, xsiTypeOf_none e a M ha, hcl, hf.anyType, VarCore.isWildcard, hf.isElem,
     bind, Except.bind, pure, Except.pure]
 
@@ -122,20 +129,20 @@ theorem nilAttr_noType (b : Bool) : ∀ kv ∈ nilAttr b, kv.1 ≠ xsiType := by
     subst hkv; decide
 
 theorem parseNode_primN (e : BEnv) (Γ : Ctx) (pcfg : ParserConfig) {m : XmlMeta} {var : XmlVar}
-    (hw : m.wildcards = []) {t : PT} (hty : var.types = [.prim t]) (M : NsMap) {y : Val}
+    (hw : m.mixedContent = false) {t : PT} (hty : var.types = [.prim t]) (M : NsMap) {y : Val}
     (hy : PrimItem e var t y)
     (h1 : y = .none → var.default = .none ∨ (var.default = .listFactory ∧ var.tokens = false))
-    (h2 : ∀ p, y = .prim p → var.tokens = false ∧ (p = .str [] → var.nillable = false ∧
+    (h2 : ∀ p, y = .prim p → var.tokens = false ∧ (p = .str [] →
       (var.default = .none ∨ var.default = .val (.str []) ∨ var.default = .listFactory)))
     (h3 : y = .list [] → var.default = .listFactory) :
-    parseNode e Γ pcfg (.primitive m var M) (primItemTree M var y) =
+    parseNode e Γ pcfg (.primitive m var M (primItemNil var y)) (primItemTree M var y) =
       .ok ⟨[(some var.qname, y)], 0⟩ := by
   cases hy with
   | none hn =>
     simp only [primItemTree]
     rw [parseNode]
     rcases h1 rfl with hd | ⟨hd, htk⟩ <;>
-      simp [parseVar, hd, hn, XmlMeta.mixedContent, hw, bind, Except.bind, pure, Except.pure, *]
+      simp [parseVar, hd, hn, primItemNil, hw, bind, Except.bind, pure, Except.pure, *]
   | prim p hpt =>
     obtain ⟨htok, hemp⟩ := h2 p rfl
     simp only [primItemTree]
@@ -143,49 +150,59 @@ theorem parseNode_primN (e : BEnv) (Γ : Ctx) (pcfg : ParserConfig) {m : XmlMeta
     by_cases hs : serPrim p = []
     · have hp := (serPrim_eq_nil hpt).1 hs
       subst hp
-      obtain ⟨hnl, hd⟩ := hemp rfl
+      have hd := hemp rfl
+      have ht : t = .str := by cases t <;> simp [primHasType] at hpt <;> rfl
+      subst ht
       rcases hd with hd | hd | hd <;>
-        simp [optText, serPrim, parseVar, hd, htok, hnl, XmlMeta.mixedContent, hw, bind, Except.bind,
-          pure, Except.pure]
+        simp [optText, serPrim, parseVar, hd, htok, hty, primItemNil, hw, bind,
+          Except.bind, pure, Except.pure]
     · have : optText (serPrim p) = some (serPrim p) := by simp [optText, hs]
       rw [this, parseVar_serPrim e pcfg var.toVarCore p t M htok hty hpt]
-      simp [XmlMeta.mixedContent, hw, bind, Except.bind, pure, Except.pure]
+      simp [hw, bind, Except.bind, pure, Except.pure]
   | toks ys htok hys =>
     simp only [primItemTree]
     rw [parseNode]
     cases ys with
     | nil =>
-      simp [optText, joinTok, tokStrs, List.intercalate, parseVar, h3 rfl, htok, XmlMeta.mixedContent,
-        hw, bind, Except.bind, pure, Except.pure]
+      simp [optText, joinTok, tokStrs, List.intercalate, parseVar, h3 rfl, htok, hw, bind, Except.bind, pure, Except.pure]
     | cons a l =>
       have : optText (joinTok (a :: l)) = some (joinTok (a :: l)) := by
         simp [optText, joinTok_ne_nil hys]
       rw [this, parseVar_toks e pcfg var.toVarCore M htok hty hys]
-      simp [XmlMeta.mixedContent, hw, bind, Except.bind, pure, Except.pure]
+      simp [hw, bind, Except.bind, pure, Except.pure]
 
 /-- a primitive-like item: generator + writer + parser -/
 theorem itemP_prim (e : BEnv) (Γ : Ctx) (pcfg : ParserConfig) (M : NsMap) {m : XmlMeta} {var : XmlVar}
-    (hf : ElemFactsN m var) (hw : m.wildcards = []) (hcl : var.clazz = none) {t : PT}
+    (hf : ElemFactsN m var) (hw : m.mixedContent = false) (hcl : var.clazz = none) {t : PT}
     (hty : var.types = [.prim t]) {y : Val} (hy : PrimItem e var t y)
     (h1 : y = .none → var.default = .none ∨ (var.default = .listFactory ∧ var.tokens = false))
-    (h2 : ∀ p, y = .prim p → var.tokens = false ∧ (p = .str [] → var.nillable = false ∧
+    (h2 : ∀ p, y = .prim p → var.tokens = false ∧ (p = .str [] →
       (var.default = .none ∨ var.default = .val (.str []) ∨ var.default = .listFactory)))
     (h3 : y = .list [] → var.default = .listFactory) :
     plain M (primItemTree M var y) = true ∧ ItemP e Γ pcfg M m var y (primItemTree M var y) := by
   have hp := parseNode_primN e Γ pcfg hw hty M hy h1 h2 h3
+  have hnilEq : ∀ b : Bool, decide (xsiNilOf (nilAttr b) = some true) = b := by
+    intro b; cases b <;> decide
   cases hy with
   | none hn =>
-    exact ⟨by simp [primItemTree, plain, plainList], _, _, _, _, rfl,
-      buildNode_primN e Γ hf hcl _ M (nilAttr_noType _), hp⟩
+    refine ⟨by simp [primItemTree, plain, plainList], _, _, _, _, rfl,
+      buildNode_primN e Γ hf hcl _ M (nilAttr_noType _), ?_⟩
+    rw [hnilEq]; exact hp
   | prim p hpt =>
     exact ⟨by simp [primItemTree, plain, plainList], _, _, _, _, rfl,
       buildNode_primN e Γ hf hcl _ M (by simp), hp⟩
   | toks ys htok hys =>
     refine ⟨by simp [primItemTree, plain, plainList], _, _, _, _, rfl,
-      buildNode_primN e Γ hf hcl _ M ?_, hp⟩
-    intro kv hkv
-    split at hkv
-    · exact nilAttr_noType _ kv hkv
-    · cases hkv
+      buildNode_primN e Γ hf hcl _ M ?_, ?_⟩
+    · intro kv hkv
+      split at hkv
+      · exact nilAttr_noType _ kv hkv
+      · cases hkv
+    · have : decide (xsiNilOf (if ys.isEmpty = true then nilAttr var.nillable else []) = some true) =
+          primItemNil var (.list ys) := by
+        cases hys' : ys.isEmpty
+        · simp [primItemNil, hys', xsiNilOf]
+        · simp only [hys', if_true, primItemNil, Bool.true_and]; exact hnilEq _
+      rw [this]; exact hp
 
 end Proofs.C01
